@@ -81,8 +81,32 @@ def detect(d, props):
     return res
 
 
+def detectwt(d, props):
+    """like detect, but on the scratch worktree /tmp/seed_<P> (VERIF_REPO), leaving /repo alone: for development"""
+    dst = os.path.join(ROOT, "seeded", d)
+    patch = os.path.join(dst, "patch.diff")
+    wt = "/tmp/seed_%s" % d.split("-")[0]
+    sh("git checkout -- .", cwd=wt)
+    rc, o = sh("git apply %s" % patch, cwd=wt)
+    if rc != 0:
+        return {"error": "patch does not apply: " + o[-300:]}
+    res = {}
+    try:
+        for p in props:
+            rc, o = sh("./check %s --tier quick --no-evidence --jobs 8" % p, cwd=ROOT, timeout=3000,
+                       env=dict(os.environ, VERIF_REPO=wt))
+            lines = [l for l in o.splitlines() if l.startswith("VIOLATION") or l.startswith("FAILED OBLIGATION") or "ERRORS" in l or l.startswith("CRASH")]
+            res[p] = {"exit": rc, "lines": lines[:12]}
+    finally:
+        sh("git checkout -- .", cwd=wt)
+    return res
+
+
 if __name__ == "__main__":
-    if sys.argv[1] == "confirm":
+    if sys.argv[1] == "detectwt":
+        d = sys.argv[2]
+        print(json.dumps(detectwt(d, sys.argv[3:] or [d.split("-")[0]]), indent=1))
+    elif sys.argv[1] == "confirm":
         print(json.dumps(confirm(sys.argv[2], sys.argv[3]), indent=1))
     else:
         d = sys.argv[2]
